@@ -53,6 +53,15 @@ mut("c03_skip_written", "src/blob/index/bptree/core.rs", "        if !self.heade
 mut("c03_maxid_ignores_failed", "src/storage/core.rs", "                        max_blob_id = max_blob_id.max(Some(file_name.id()));", "                        let _ = file_name;", ["C03"], "max id ignores files that failed to open")
 mut("c03_f5_revert", "src/blob/index/bptree/core.rs", "        if self.file.size() != expected_size {", "        if false && self.file.size() != expected_size {", ["C03"], "reverts fix F5")
 mut("c03_f6_revert", "src/storage/core.rs", "let max_blob_id = max_blob_id.max(Self::max_old_corrupted_blob_id(&self.inner.config).await);", "", ["C03", "C07"], "reverts fix F6")
+# ---- C07
+mut("c07_create_truncates", "src/io/unix/sync.rs", "File::from_file(path, |f| f.create(true).write(true).read(true)).await", "File::from_file(path, |f| f.create(true).truncate(true).write(true).read(true)).await", ["C07"], "create() truncates an existing file (only harmful when a blob path is re-created)")
+mut("c07_quarantine_copy_delete", "src/storage/core.rs", """        tokio::fs::rename(&path, &corrupted_path)
+            .await""", """        tokio::fs::copy(&path, &corrupted_path).await.map(|_| ()).and(tokio::fs::write(&path, b"").await).and(tokio::fs::remove_file(&path).await)""", ["C07"], "quarantine by copy + truncate + delete")
+mut("c07_regen_rewrites_tail", "src/blob/core.rs", """        debug!("index successfully generated: {}", self.index.name());""", """        if self.index.count() == 3 { let _ = std::fs::OpenOptions::new().write(true).open(self.name.as_path()).and_then(|f| f.set_len(self.file.size() - 1)); }""", ["C07", "C03"], "index regeneration trims the last byte of a 3-record blob")
+mut("c07_query_writes", "src/storage/core.rs", """    pub async fn records_count(&self) -> usize {
+        self.inner.records_count().await""", """    pub async fn records_count(&self) -> usize {
+        self.observer.try_dump_old_blob_indexes().await;
+        self.inner.records_count().await""", ["C07"], "a counter query triggers index dumps (writes)")
 # ---- C09
 mut("c09_leaf_pack_eq", "src/blob/index/bptree/serializer.rs", "            if remainder < record_header_size {", "            if remainder <= record_header_size {", ["C09"], "EQUIVALENT: starts a new leaf one header early, still a valid tree")
 mut("c09_leaf_pack", "src/blob/index/bptree/serializer.rs", "            if remainder < record_header_size {", "            if remainder + 1 < record_header_size {", ["C09"], "leaf packing off-by-one: a header may cross the 4 KiB block end")
